@@ -157,6 +157,12 @@ def analyze(df, analyzer):
     return rec, gain, {k: (float(wc[k]) if np.isfinite(float(wc[k])) else str(wc[k])) for k in ('SD', 'ND', 'k_1', 'TN', 'TS')}
 
 
+def _no_droppable(df):
+    """The data set without its lowest pure run-out level: with a single pure run-out level the analyzers keep the fatigue data object they are given
+    (irrelevant_runouts_dropped() returns it unchanged), so a transition set on it afterwards is the analyzer's transition."""
+    return df[df.load > df.load.min()].reset_index(drop=True)
+
+
 def _walk(args):
     ds, hist, analyzer, seed = args
     rng = random.Random(seed)
@@ -297,6 +303,42 @@ def run(chk):
                 chk.violation('exactly-Basquin data: scatter returned as nan instead of 1', {'dataset': job[0], 'analyzer': job[2]}, part='exact')
         traces.append(tr)
         meta.append((job, detail))
+    # an analyzer constructed BEFORE the transition load of its fatigue data is set: analysed afterwards it answers like an analyzer constructed after
+    # the setting (same data, same transition) -- the zones are those at the reported transition, and the likelihood is not below that of its start
+    import pylife.materialdata.woehler as W
+    from pylife.materialdata.woehler.likelihood import Likelihood
+    with warnings.catch_warnings():
+        warnings.simplefilter('ignore')
+        for dname, x in (('mixed', 304.0), ('mixed', 368.0), ('mixed', 400.0)):
+            for an_name in ('Elementary', 'Probit', 'MaxLikeInf', 'MaxLikeFull'):
+                chk.evals(1)
+                def run_early():
+                    fd1 = _no_droppable(dataset(dname)).fatigue_data
+                    early = getattr(W, an_name)(fd1)
+                    fd1.set_finite_infinite_transition(x)
+                    return early.analyze()
+
+                def run_fresh():
+                    fd2 = _no_droppable(dataset(dname)).fatigue_data
+                    fd2.set_finite_infinite_transition(x)
+                    return getattr(W, an_name)(fd2).analyze()
+                res = []
+                for fn in (run_early, run_fresh):
+                    try:
+                        r = fn()
+                        res.append({k: float(r[k]) for k in ('SD', 'ND', 'k_1', 'TN', 'TS')})
+                    except Exception as ex:
+                        res.append('raised %s: %s' % (type(ex).__name__, str(ex)[:80]))
+                r1, r2 = res
+                if isinstance(r1, str) or isinstance(r2, str):
+                    same = r1 == r2          # a data set the analyzer refuses (e.g. fewer than two mixed levels below the transition) is refused either way
+                else:
+                    same = all((np.isnan(r1[k]) and np.isnan(r2[k])) or abs(r1[k] - r2[k]) <= 1e-9 * abs(r2[k]) for k in r2)
+                if not same:
+                    chk.violation('an analyzer constructed before set_finite_infinite_transition() answers differently from one constructed after it (zones frozen at construction)',
+                                  {'dataset': dname + ' without its lowest pure run-out level', 'analyzer': an_name, 'transition': x}, r2, r1, part='held_analyzer')
+                elif not isinstance(r1, str):
+                    chk.nontrivial(('held_analyzer', dname, an_name, x))
     from .. import findings
     fs = findings.load('C18')
     acc = 0
